@@ -1,5 +1,5 @@
 (* C13 driver: scenario = one operation, or one of the life-cycle scenarios of C13_Life.v (:repeat :pad :seq :split :fromtill
-   :masked :binary); see checks/C13.py for the token grammar *)
+   :masked :binary :col); see checks/C13.py for the token grammar *)
 let b c = bytes_tok (next c)
 let op_of c =
   match next c with
@@ -78,8 +78,18 @@ let sop_of c =
   | ":cpb" -> let i = nt c in QCpb (i, nt c)
   | ":find" -> let i = nt c in let st = n_tok (next c) in QFind (i, st, n_tok (next c))
   | t -> raise (Bad ("seq op " ^ t))
+let cop_of c =
+  match next c with
+  | ":sp" -> let x = b c in KSplit (x, b c)
+  | ":al" -> KAlloc (nt c)
+  | ":put" -> let i = n_tok (next c) in KPut (i, b c)
+  | ":sz" -> KSize
+  | ":get" -> KGet (n_tok (next c))
+  | ":snap" -> KSnap
+  | t -> raise (Bad ("col op " ^ t))
 let scn_of c =
   match peek c with
+  | Some ":col" -> ignore (next c); SColl (counted c cop_of)
   | Some ":repeat" -> ignore (next c); let x = b c in SRepeat (x, nt c)
   | Some ":pad" -> ignore (next c); let x = b c in let y = b c in SPad (x, y, n_tok (next c))
   | Some ":seq" -> ignore (next c); SSeq (counted c sop_of)
